@@ -53,6 +53,83 @@ CLAIMED = {
               "Coq proof over Gallina models of the per-axis helpers + property check of unify_chunks_expr outputs"),
 }
 
+
+def _is_placeholder(pid):
+    import re
+    path = os.path.join(HERE, "coq", "Properties", pid + ".v")
+    if not os.path.exists(path):
+        return True
+    names = re.findall(r"^\s*(?:Theorem|Lemma|Corollary|Example)\s+(\w+)", open(path).read(), flags=re.M)
+    return bool(names) and all("placeholder" in n for n in names)
+
+
+_EXEC = "differential execution of generated programs (harness/progs.py) against NumPy / the implementation's own raw form"
+CLAIMED.update({
+    "C02": _c("Every rewrite that fires during simplify/lower is captured as (rule, before, after) objects and validated by executing both "
+              "sides un-optimized; raw/simplified/lowered/fused forms are compared by value on position-coded data; Coq: the slice-over-"
+              "slice rule is the C13 fuse theorem, further rule theorems come with the expression calculus (coq/Properties/C02.v).",
+              "5/C02", _TB + "the raw expression lowered without simplify is the reference semantics (compared with NumPy by C01).",
+              "Coq rule theorems + per-fired-rewrite translation validation by execution"),
+    "C03": _c("Every advertised key of generated programs is executed and each block's shape/dtype compared with .chunks/.dtype "
+              "(optimize-graph on and off); Coq: per-axis theorems that slice chunks equal produced piece lengths (C13) and rechunk "
+              "blocks have the requested sizes (C15).", "5/C03", _TB + "N-d and non-slice/rechunk ops are checked by execution only.",
+              "Coq per-axis chunk theorems + block-by-block execution check"),
+    "C04": _c("Coq-verified graph checker (graph_check_b / keys_okN_b with soundness AND completeness theorems, coq/Properties/C04.v) is "
+              "run inside Coq on the reified real task graphs (keys + dependencies, Python topological order as an untrusted certificate); "
+              "key grid, definedness, closedness, acyclicity, name stability also checked in Python on every generated program.",
+              "5/C04", _TB + "harness/graphs.py reifier (dask GraphNode.dependencies); name equality is a string check in Python.",
+              "Coq-verified checker (translation validation of real graphs) + generated programs"),
+    "C05": _c("7 entry points x generated programs x follow-on operation compared exactly with x.compute(); name/chunks/dtype preservation "
+              "of persisted and dask-optimized collections.", "5/C05", _TB + "protocol model pending in Coq (see evidence level).",
+              "differential execution across entry points (Coq protocol model in progress)"),
+    "C06": _c("All expression nodes (raw/simplified/lowered/fused) and all executed graph keys of ~1200 programs built in one process over a "
+              "shared source pool are registered by name/key with metadata and value fingerprints; a name or key with two fingerprints is "
+              "a violation.", "5/C06", _TB + "hash injectivity (tokenize) is assumed.", "in-process name/key collision search (Coq naming model in progress)"),
+    "C07": _c("Programs are rebuilt in-process, in fresh interpreters with different PYTHONHASHSEED, and through cloudpickle; name, keys, full "
+              "optimized key set, chunks, dtype, Frisky output keys and values compared.", "5/C07", _TB + "untokenizable sources are out of scope.",
+              "cross-process / pickle determinism check (Coq naming model in progress)"),
+    "C08": _c("Programs that compute from their raw form must simplify/lower/fuse under a watchdog without error; simplify/lower/fuse/optimize "
+              "applied twice must keep the name; adversarial rechunk/concat/slice towers.", "5/C08", _TB + "termination measure theorems pending.",
+              "watchdog + idempotence check over generated programs"),
+    "C09": _c("Histories of build/compute/drop over programs sharing subtrees with planner options switched at every step; values compared with "
+              "the history-free NumPy value; Coq: the configuration-dependent planners are value-neutral for every configuration/oracle "
+              "(plan steps are layouts of the shape, unified layouts are layouts of the axis).", "5/C09", _TB, "Coq planner-neutrality theorems + history/config exploration"),
+    "C10": _c("Coq theorems (coq/Properties/C10.v): for pure tasks every topological order — and every Start/Finish interleaving — computes the "
+              "same store; under the per-task premise 'writes only buffers it allocated' sources and dependency values never change and the "
+              "heap semantics refines the pure one.  The premise is OBSERVED on the real code for every executed task (fingerprints of all "
+              "dependency values and source arrays around each task) in 5 topological orders + a thread pool.", "5/C10",
+              _TB + "interleavings inside NumPy kernels are not modelled; the premise is observed, not proved about NumPy.",
+              "Coq reduction theorem (confluence/non-interference) + observed per-task premise"),
+    "C11": _c("Histories of derivations, assignments (7 key kinds x scalar/array/dask values), ufunc out=, computes: after every step the target "
+              "equals the NumPy result, every other live collection its value at derivation, the source ndarray its original.", "5/C11",
+              _TB + "identity-returning derivations count as the target (DESIGN F9).", "mutation-history exploration (Coq history model in progress)"),
+    "C12": _c("Coq theorems about a Gallina model of normalize_index / replace_ellipsis / check_index / SliceSlicesIntegers layer and chunks "
+              "(coq/Properties/C12.v), built on C13's per-axis theorems; " + _TIE + "; fancy paths (lists, masks, dask indices, vindex, "
+              "blocks) by value against NumPy.", "5/C12", _TB + "no array-value model: the N-d statement is about source positions and the block grid.",
+              "Coq proof over Gallina model + differential correspondence"),
+    "C20": _c("A recording block function placed by map_blocks between generated programs below and 0-3 ops above: every invocation's "
+              "chunk-location/array-location/chunk-shape/shape/num-chunks and received block shape compared with the layout at call time.",
+              "5/C20", _TB, "instrumented user function over generated programs (Coq block_info model in progress)"),
+    "C21": _c("Real __frisky_graph__ records are executed by an in-process executor and compared block by block with __dask_graph__; "
+              "completeness, declared deps, shared-seen groups, __frisky_records_chunks__.", "5/C21",
+              _TB + "native layers absent: only the generic translation is exercised.", "records executor vs dask graph (Coq flattening model in progress)"),
+    "C23": _c("Distributions x generator kinds x chunkings: recompute, rebuild, pickle, and derived programs compared with the same NumPy "
+              "function of the one realization.", "5/C23", _TB + "NumPy bit generators are an oracle.", "realization-consistency exploration (Coq seed model in progress)"),
+    "C25": _c("Coq theorems about a Gallina model of store's per-block write indices (fuse_slice of region and block slice), one-assignment "
+              "equivalence, frame condition, order independence, read-back (coq/Properties/C25.v); " + _TIE + " (recorded writes of a "
+              "recording target vs the model).", "5/C25", _TB + "NumPy __setitem__ semantics transcribed and validated by correspondence; "
+              "N-d values by execution.", "Coq proof over Gallina model + differential correspondence"),
+    "C26": _c("The import graph of /repo/dask_array is REGENERATED from source on every run (translator/importgraph.py -> coq/Generated/"
+              "ImportGraph.v) and the closure theorems re-proved: no module runs registration code at import, the manager module is "
+              "reachable from no other module (coq/Properties/C26.v); fresh-interpreter import-order matrix observes the chunk manager "
+              "after every import and register().", "5/C26", _TB + "translator (Python ast; import-time = module body through if/try/with/"
+              "class, not def bodies; refuses dynamic imports); Python import semantics.", "translator-generated Coq model + closure proof + subprocess matrix"),
+    "C28": _c("Data-dependent selections: values, compute_chunk_sizes exactness block by block, follow-on operations either raise or equal "
+              "NumPy.", "5/C28", _TB, "exploration against NumPy (Coq unknown-size model in progress)"),
+    "C29": _c("Recording non-NumPy sources and recording block functions under construction and all metadata accessors / optimize / explain.",
+              "5/C29", _TB, "instrumented sources and functions (Coq meta model in progress)"),
+})
+
 NOT_APPLICABLE = {
     "C22": "native Rust layers cannot be built or run here (pyo3 0.29 and build crates absent from the offline cargo cache, no prebuilt _rust*.so), so no model of them can be tied to the code",
 }
@@ -73,7 +150,7 @@ def main():
                 "evidence_file": f"/verif/evidence/{pid}.json",
                 "replay_cmd_template": f"./check {pid} --replay {{path}}",
                 "engine": "coq+correspondence",
-                "level_claimed": {"category": "proof", "text": c["text"], "design_ref": c["design"]},
+                "level_claimed": {"category": "exploration" if _is_placeholder(pid) else "proof", "text": c["text"], "design_ref": c["design"]},
                 "level_note": c["note"],
                 "technique": c["technique"],
             })
